@@ -13,8 +13,9 @@ package leveldb
 //verif:bound VerifC20Reads: history of exactly 0, 1 or 2 writes (thorough: 3), as single calls or as one batch of two writes + Write (thorough: 3 single calls for every read; single+batch and batch+single for the Iterator() read); every write is Delete(k), Set(k, nil) or Set(k, v); keys of 0..2 arbitrary bytes, v of 0..1 arbitrary bytes; then one read on both backends: Get of an arbitrary key of 0..2 bytes, Iterator() drained to the end, or IteratorPrefix(p) (p of 0..2 arbitrary bytes) drained to the end
 //verif:bound VerifC20Start: IteratorPrefixWithStart(p, start, false), p of 0..2 arbitrary bytes, start nil or exactly 0, 1, 2 arbitrary bytes: Key()/Value() right after creation (as store_checkpoint.go reads them), then drained to the end; after the empty history, any single write, two Set(k, v) calls with start nil, 0 or 1 byte (quick) / any two writes as two calls or one batch, three Set(k, v) calls with 1-byte values (thorough)
 //verif:bound VerifC20Reverse (isReverse = true; beyond the property statement, own labels reverse-...): as VerifC20Start after the empty history, one write (start nil or 1 byte), two Set(k, v) of 1-byte values with start nil (quick) / any two writes with start nil, two calls with start of 1 byte (thorough)
+//verif:bound VerifC20Rewrite: one batch object per backend with 1..2 writes (Delete / Set nil / Set v, keys 0..2 bytes), Write, then a direct Set or Delete on the DB of one of the batch's keys, then Write of the SAME batch again; then Get of an arbitrary key or Iterator() drained (quick: 1 write of any kind, 2 writes with the kinds listed in the obligations; thorough: any 2 writes)
 //verif:bound VerifC20Alias: Set or batch.Set of a 1-byte key and 1-byte value, then the caller overwrites the value buffer (mode 0), key and value buffers before Write (mode 1) or the key buffer (mode 2) with arbitrary bytes; Get(old key), Get(new key) on both backends
-//verif:assume goleveldb contract (solver side; the native replay links the real goleveldb): the DB is a map from byte strings to byte strings ordered by bytes.Compare; Put/Delete/Batch.Put/Batch.Delete copy their arguments; Write applies the batch records in order; Get returns a fresh non-nil copy or (nil, ErrNotFound)
+//verif:assume goleveldb contract (solver side; the native replay links the real goleveldb): the DB is a map from byte strings to byte strings ordered by bytes.Compare; Put/Delete/Batch.Put/Batch.Delete copy their arguments; Write applies the batch records in order and does not modify the batch (goleveldb: "Write will not modify content of the batch"): a Batch keeps its records until Batch.Reset is called, so writing the same batch again applies them again; Get returns a fresh non-nil copy or (nil, ErrNotFound)
 //verif:assume goleveldb iterator contract: NewIterator(r) is a snapshot of the keys in [r.Start, r.Limit) (nil Limit: unbounded), initially before the first key; Seek(k) positions at the first key >= k of the snapshot (false and past-the-end if none); Next from before-the-first goes to the first key, from past-the-end stays (false); Last/Prev symmetric, Prev from past-the-end goes to the last key; Key()/Value() are nil when unpositioned, otherwise a buffer owned by the iterator that is overwritten by the next move; no errors (Error() == nil, Put/Delete/Write succeed)
 //verif:assume util.BytesPrefix is executed for real (not stubbed)
 //verif:outside everything inside goleveldb (journal, compaction, on-disk tables, snapshots under concurrent writes, I/O errors -> PanicCrisis); writes interleaved with a live iterator (MemDB iterators read values live, goleveldb iterators are snapshots); SetSync/DeleteSync (same code as Set/Delete in MemDB); Print/Stats; the mutexes (single goroutine); node/node.go backend selection (dbm.NewDB is a table lookup); Seek on a dbm.Iterator after its creation; histories of more than 3 writes, keys longer than 2 bytes, values longer than 1 byte
@@ -27,6 +28,7 @@ package leveldb
 //verif:override (*github.com/syndtr/goleveldb/leveldb.DB).Close -> verifC20DBClose
 //verif:override (*github.com/syndtr/goleveldb/leveldb.Batch).Put -> verifC20BatchPut
 //verif:override (*github.com/syndtr/goleveldb/leveldb.Batch).Delete -> verifC20BatchDelete
+//verif:override (*github.com/syndtr/goleveldb/leveldb.Batch).Reset -> verifC20BatchReset
 //verif:override io/ioutil.TempDir -> verifC20TempDir
 //verif:override os.RemoveAll -> verifC20RemoveAll
 //verif:obligation fn=VerifC20Reads args=0,0,0;0,1,0;0,2,0;1,0,0;1,1,0;1,2,0 validate=12
@@ -39,6 +41,9 @@ package leveldb
 //verif:obligation fn=VerifC20Reverse args=0,0,-1;1,0,-1;1,0,1 validate=12
 //verif:obligation fn=VerifC20Reverse args=11,44,-1
 //verif:obligation fn=VerifC20Reverse args=11,0,-1;2,0,-1;11,0,1 tier=thorough secs=3000 paths=2000000
+//verif:obligation fn=VerifC20Rewrite args=1,0,0;1,1,0 validate=12
+//verif:obligation fn=VerifC20Rewrite args=2,1,44;2,1,14;2,1,41;2,0,44
+//verif:obligation fn=VerifC20Rewrite args=2,0,0;2,1,0 tier=thorough secs=3000 paths=2000000
 //verif:obligation fn=VerifC20Alias args=0;1;2 validate=12
 
 import (
@@ -132,6 +137,16 @@ func verifC20BatchPut(b *leveldb.Batch, key, value []byte) {
 
 func verifC20BatchDelete(b *leveldb.Batch, key []byte) {
 	verifC20Pending = append(verifC20Pending, verifC20Rec{b, true, verifC20Copy(key), nil})
+}
+
+func verifC20BatchReset(b *leveldb.Batch) {
+	var keep []verifC20Rec
+	for _, r := range verifC20Pending {
+		if r.b != b {
+			keep = append(keep, r)
+		}
+	}
+	verifC20Pending = keep
 }
 
 func verifC20DBWrite(db *leveldb.DB, b *leveldb.Batch, wo *opt.WriteOptions) error {
@@ -609,5 +624,68 @@ func VerifC20Alias(mode int) {
 	verifAssert((got[0][1] == nil) == (got[1][1] == nil), "alias-get-nil-agree")
 	verifAssert(got[1][0] != nil, "alias-stored-under-the-key-given")
 	verifReach("VerifC20Alias:end")
+	p.close()
+}
+
+// VerifC20Rewrite: one batch object is written twice with a direct write of
+// one of its keys in between. nOps = number of writes queued in the batch
+// (1..2), read = 0: Get of an arbitrary key, 1: Iterator() drained; the digits
+// of kinds give the kinds of the batch's writes (0 = any).
+func VerifC20Rewrite(nOps int, read int, kinds int) {
+	p := verifC20Open()
+	kd := verifC20Digits(kinds)
+	var ws []verifC20Write
+	for i := 0; i < nOps; i++ {
+		k := 0
+		if i < len(kd) {
+			k = kd[i]
+		}
+		ws = append(ws, verifC20NewWrite(k))
+	}
+	// the direct write between the two Write calls hits one of the batch's keys
+	direct := verifC20Write{k: ws[verifChoice("directKey", nOps)].k}
+	switch verifChoice("directWrite", 3) {
+	case 0:
+		direct.del = true
+	case 1:
+		direct.v = nil
+	case 2:
+		direct.v = verifBytes("directValue", 1)
+	}
+	for _, db := range []DB{p.mem, p.ldb} {
+		b := db.NewBatch()
+		for _, w := range ws {
+			if w.del {
+				b.Delete(verifC20Copy(w.k))
+			} else {
+				b.Set(verifC20Copy(w.k), verifC20CopyNil(w.v))
+			}
+		}
+		b.Write()
+		if direct.del {
+			db.Delete(verifC20Copy(direct.k))
+		} else {
+			db.Set(verifC20Copy(direct.k), verifC20CopyNil(direct.v))
+		}
+		b.Write()
+	}
+	if read == 0 {
+		q := verifC20Key("query")
+		g1, g2 := p.mem.Get(verifC20Copy(q)), p.ldb.Get(verifC20Copy(q))
+		verifObserveBool("memGetNil", g1 == nil)
+		verifObserveBool("ldbGetNil", g2 == nil)
+		verifObserveBytes("memGet", g1)
+		verifObserveBytes("ldbGet", g2)
+		verifAssert((g1 == nil) == (g2 == nil), "rewrite-get-nil-agree")
+		verifAssert(bytes.Equal(g1, g2), "rewrite-get-bytes-equal")
+		if g2 != nil {
+			verifReach("VerifC20Rewrite:get-hit")
+		}
+	} else {
+		keys := verifC20Drain(p.mem.Iterator(), p.ldb.Iterator(), nOps, "rewrite-iter")
+		if len(keys) > 0 {
+			verifReach("VerifC20Rewrite:replayed-key-live")
+		}
+	}
 	p.close()
 }
